@@ -269,6 +269,9 @@ func genC04(seed uint64, idx int) *Plan {
 			}
 			h.Steps = append(steps, HStep{Side: "b", Kind: "ccs"})
 		}
+		// the context NewConn was given had a deadline, long past by the time the
+		// second hello is refused: the alert is owed all the same
+		h.CtxDeadline = h.Concurrent && (idx/10)%2 == 0
 		return &Plan{Kind: "history", Seed: seed, History: h}
 	}
 	p := genScriptBase(r)
